@@ -155,7 +155,7 @@ func rulesC20(c *Ctx) {
 
 	// ---- R2
 	for _, pkg := range []string{"cashu/nuts/nut04", "cashu/nuts/nut05", "cashu/nuts/nut07"} {
-		c.c20EnumTables(pkg)
+		c.ruleEnumTables("R2", pkg)
 	}
 	if f := c.fn("R2", "crypto.(PublicKeys).MarshalJSON"); f != nil {
 		okSort := false
@@ -173,12 +173,13 @@ func rulesC20(c *Ctx) {
 	c.c20Status()
 }
 
-func (c *Ctx) c20EnumTables(pkg string) {
+// ruleEnumTables: String() and StringToState of a state enum are inverse tables (shared: C20.R2, C03.R9, C05).
+func (c *Ctx) ruleEnumTables(rule, pkg string) {
 	R := c.R
 	str := c.P.Func(pkg + ".(State).String")
 	parse := c.P.Func(pkg + ".StringToState")
 	if str == nil || parse == nil {
-		R.Unresolved("R2", pkg+" state tables", "String or StringToState not found")
+		R.Unresolved(rule, pkg+" state tables", "String or StringToState not found")
 		return
 	}
 	// String: state == c -> "S"
@@ -221,7 +222,7 @@ func (c *Ctx) c20EnumTables(pkg string) {
 			why = fmt.Sprintf("state %s prints as %s but %s parses as %q", k, v, v, back[v])
 		}
 	}
-	R.Check("R2", pkg, "String / StringToState inverse", pkg, ok, fmt.Sprintf("the %d state names round-trip through StringToState", len(fwd)), why)
+	R.Check(rule, pkg, "String / StringToState inverse", pkg, ok, fmt.Sprintf("the %d state names round-trip through StringToState", len(fwd)), why)
 }
 
 // opErrorOrigins collects the alternatives of the error an operation may return, looking through module callees.
